@@ -4,10 +4,12 @@ package main
 // of the given kind, then Next / SkipNext as the choice string says), with C02's expectation in the
 // last field: (tnone) | (ttrunc orig nonboundary nwhole).
 
-func c02xEmitSkip(c *Ctx, kind uint64, chunk int, o rOpts, file []byte, w []bool, expect Val, nontrivial bool) {
+// The source descriptor may carry a third element: 1 = the counting sources (kinds 2..4) report io.EOF
+// together with their last bytes (a delivery pattern the model, which reads byte strings, abstracts).
+func c02xEmitSkip(c *Ctx, kind uint64, chunk int, dataErr bool, o rOpts, file []byte, w []bool, expect Val, nontrivial bool) {
 	hok, hdrs := scanTables(file)
-	in := VL{VL{VN(kind), VN(uint64(chunk))}, o.val(), VB(file), hok, hdrs, choicesVal(w), expect}
-	c.Emit("c02skip", in, runBrposImpl(c, kind, chunk, o, file, w), nontrivial)
+	in := VL{VL{VN(kind), VN(uint64(chunk)), vbool(dataErr)}, o.val(), VB(file), hok, hdrs, choicesVal(w), expect}
+	c.Emit("c02skip", in, runBrposImplD(c, kind, chunk, dataErr, o, file, w), nontrivial)
 }
 
 func init() {
@@ -20,6 +22,7 @@ func init() {
 		for _, x := range l[5].(VL) {
 			w = append(w, x.(VN) != 0)
 		}
-		return runBrposImpl(c, uint64(k[0].(VN)), int(k[1].(VN)), o, []byte(l[2].(VB)), w)
+		dataErr := len(k) > 2 && k[2].(VN) != 0
+		return runBrposImplD(c, uint64(k[0].(VN)), int(k[1].(VN)), dataErr, o, []byte(l[2].(VB)), w)
 	})
 }
